@@ -48,6 +48,7 @@ type Task struct {
 	fw     uint32 // futex word (ModeFutex)
 
 	pending []pendingEv
+	doneCh  chan struct{} // closed when the task ends: the only race-detector-visible edge, task end -> Join
 	Panic   any
 	Stack   string
 	aborted bool
@@ -125,7 +126,7 @@ func (s *Sched) Cur() *Task {
 
 // Go creates a task. It first runs when the scheduler releases it.
 func (s *Sched) Go(name string, fn func(t *Task)) *Task {
-	t := &Task{ID: len(s.Tasks), Name: name, s: s}
+	t := &Task{ID: len(s.Tasks), Name: name, s: s, doneCh: make(chan struct{})}
 	if s.Mode != ModeFutex {
 		t.resume = make(chan struct{})
 		t.arrive = make(chan struct{}, 1)
@@ -157,6 +158,7 @@ func (t *Task) finish() {
 		}
 	}
 	t.state = stDone
+	close(t.doneCh)
 	t.signalArrive()
 }
 
@@ -250,6 +252,25 @@ func (s *Sched) release(t *Task) {
 		waitWord(&s.fw)
 	}
 }
+
+// Now is the current scheduler step, readable from tasks.
+//
+//go:norace
+func (s *Sched) Now() int { return s.Steps }
+
+// Join waits for every finished task through a real channel, so that reading
+// what tasks recorded is ordered after them for the race detector too. Call it
+// after Run (and Abort, if Run failed).
+func (s *Sched) Join() {
+	for _, t := range s.Tasks {
+		if s.taskDone(t) {
+			<-t.doneCh
+		}
+	}
+}
+
+//go:norace
+func (s *Sched) taskDone(t *Task) bool { return t.state == stDone }
 
 // Sleep advances simulated time (ModeBubble only): tasks blocked in the
 // library on timers run when their timers fire.
